@@ -1,5 +1,6 @@
 import I18n.Generated.Intexpr
 import I18n.Lemmas.PyArith
+import I18n.Lemmas.Eval
 /-! Soundness of the range analysis (`CodomainEvaluator`) w.r.t. `Evaluator`, stated about the
     definitions the translator generates from lib/intexpr.py. -/
 namespace I18n.Plural
@@ -17,22 +18,6 @@ def Sound (M : Int) (r : Option (Int × Int)) (ev : Except Exc Int) : Prop :=
   match r with
   | some p => Inv M p ∧ Within p ev
   | none => ∀ v, ev ≠ .ok v
-
-theorem check_overflow_ok {M n v k : Int} (h : Evaluator._check_overflow M n k = .ok v) :
-    v = k ∧ 0 ≤ k ∧ k < M := by
-  unfold Evaluator._check_overflow at h
-  split at h
-  · cases h
-  · split at h
-    · cases h
-    · cases h; omega
-
-theorem check_overflow_of {M n k : Int} (h0 : 0 ≤ k) (h1 : k < M) :
-    Evaluator._check_overflow M n k = .ok k := by
-  unfold Evaluator._check_overflow
-  have : ¬ k < 0 := by omega
-  have : ¬ k ≥ M := by omega
-  simp [*]
 
 /-- Binary arithmetic leaves. -/
 theorem binop_sound {M n : Int} (op : BinOp) (x y : Int × Int) (hx : Inv M x) (hy : Inv M y) :
